@@ -5,7 +5,7 @@
 From Coq Require Import List String Ascii Bool Permutation Lia.
 Import ListNotations.
 From DI Require Import Syntax Tokens Bounds Param Subs Superset Substitute Spec RustSem Group Search Gen GenMain Validate IMap Hygiene Dispatch Examples ExamplesGroup ExamplesF16.
-From DI.proofs Require Import Basics SupersetSound SupersetExact SupersetComplete SupersetWf SubstituteProofs SubstituteSpec BoundsProofs DispatchProofs GroupProofs SearchProofs SearchFlat SearchNested FlatSemantics FlatConcrete GenProofs GenMainProofs GenMainArgs ParamProofs ParamAlpha ParamCanon RustSemProofs ValidateProofs IMapProofs HygieneProofs.
+From DI.proofs Require Import Basics SupersetSound SupersetExact SupersetComplete SupersetWf SubstituteProofs SubstituteSpec BoundsProofs DispatchProofs GroupProofs SearchProofs SearchFlat SearchNested FlatSemantics FlatConcrete GenProofs GenMainProofs GenMainArgs ParamProofs ParamAlpha ParamCanon ParamOrder RustSemProofs ValidateProofs IMapProofs HygieneProofs.
 
 (* ===================================================================================== *)
 (* C09 -- header generalisation is exact first-order matching                             *)
@@ -470,6 +470,35 @@ Theorem C13_resolver_alpha : forall (rl rt : string -> string),
 Proof. exact ren_alpha. Qed.
 Print Assumptions C13_resolver_alpha.
 
+(* ... and up to DECLARATION ORDER: a block whose generics list is permuted (parameters with
+   distinct names) receives the same numbering, hence the same canonical trait path, self type,
+   where-clause and items; its canonical generics list is the permuted list, renamed alike *)
+Theorem C13_declaration_order : forall gps gps', Permutation gps gps' -> NoDup (Param.declared gps) ->
+  forall lb lg tr self lw preds items,
+  let b := Node lb [Node lg gps; tr; self; Node lw preds; items] in
+  let b' := Node lb [Node lg gps'; tr; self; Node lw preds; items] in
+  let ix := indexed (index_block b) in
+  canon b = Node lb [Node lg (map (ren_gp ix) gps); ren ix tr; ren ix self; ren ix (Node lw preds); ren ix items] /\
+  canon b' = Node lb [Node lg (map (ren_gp ix) gps'); ren ix tr; ren ix self; ren ix (Node lw preds); ren ix items].
+Proof. exact canon_decl_order. Qed.
+Print Assumptions C13_declaration_order.
+
+Example C13_declaration_order_nonvacuous :
+  match ex_blocks with
+  | Node lb [Node lg [g0; g1]; tr; self; Node lw preds; items] :: _ =>
+      NoDup (Param.declared [g0; g1]) /\ g0 <> g1 /\
+      indexed (index_block (Node lb [Node lg [g1; g0]; tr; self; Node lw preds; items])) =
+      indexed (index_block (Node lb [Node lg [g0; g1]; tr; self; Node lw preds; items]))
+  | _ => False
+  end.
+Proof.
+  cbv iota beta delta [ex_blocks]. split; [|split].
+  - vm_compute. repeat constructor; cbn; intuition discriminate.
+  - discriminate.
+  - vm_compute. reflexivity.
+Qed.
+Print Assumptions C13_declaration_order_nonvacuous.
+
 Definition swap_names (a b s : string) : string :=
   if String.eqb s a then b else if String.eqb s b then a else s.
 
@@ -900,6 +929,14 @@ Proof. exact index_block_alpha. Qed.
 Print Assumptions C06_numbering_alpha.
 
 (* hence the parameter that renames n receives n's canonical name `_ŠČk` *)
+(* the order in which a block declares its parameters is immaterial to the numbering *)
+Theorem C06_declaration_order : forall gps gps', Permutation gps gps' -> NoDup (Param.declared gps) ->
+  forall lb lg tr self lw preds items,
+  indexed (index_block (Node lb [Node lg gps'; tr; self; Node lw preds; items])) =
+  indexed (index_block (Node lb [Node lg gps; tr; self; Node lw preds; items])).
+Proof. exact index_block_decl_order. Qed.
+Print Assumptions C06_declaration_order.
+
 Theorem C06_canonical_names_alpha : forall (rl rt : string -> string),
   (forall a b, rl a = rl b -> a = b) -> (forall a b, rt a = rt b -> a = b) ->
   forall b k n,
